@@ -135,7 +135,7 @@ Section Norm.
     pose proof (print_help_norm path (Cmd n d ld h sp pol ds b act af subs) i) as Hph.
     cbn [norm_cmd] in Hph. rewrite !Hph.
     destruct (help_index args) as [hi|].
-    - destruct (hi <? opts_and_args subs args); [reflexivity|].
+    - destruct (hi <=? opts_and_args subs args); [reflexivity|].
       destruct (skipn (opts_and_args subs args) args) as [|arg rest]; [reflexivity|]. now rewrite Hdesc.
     - destruct (fsm_parse parse_float i (firstn (opts_and_args subs args) args)) as [o1 a1| | |]; try reflexivity.
       destruct (skipn (opts_and_args subs args) args) as [|arg rest].
